@@ -16,11 +16,18 @@ package c34
 
 import (
 	"bytes"
+	"context"
 	"fmt"
 	"hash/fnv"
+	"reflect"
+	"sort"
+	"strings"
 
 	"github.com/blinklabs-io/gouroboros/ledger"
+	"github.com/blinklabs-io/gouroboros/ledger/byron"
 	lcommon "github.com/blinklabs-io/gouroboros/ledger/common"
+	"github.com/blinklabs-io/gouroboros/pipeline"
+	pcommon "github.com/blinklabs-io/gouroboros/protocol/common"
 	"golang.org/x/crypto/blake2b"
 
 	"verifharness/blockx"
@@ -35,11 +42,14 @@ func init() {
 		Rule: "11 corpus blocks (all eras) + 1 generated Dijkstra block (corpus Dijkstra block carrying the corpus Dijkstra transaction twice, header body hash recomputed independently) must decode with validation on. " +
 			"Mutants of the committed body region (Shelley..Conway: top-level items 1..; Dijkstra: block_body item; Byron main: each transaction body, each witness list, delegation payload, update payload; ssc payload and EBBs excluded): " +
 			"single-byte substitutions at PRNG-sampled offsets (every offset in thorough) x {bit flips, random values}; every sampled container of the region switched to another header form; structural edits (swap/drop/duplicate transaction, invalid-transaction list add/remove, aux entry drop/rekey, Byron dlg/upd edits). " +
-			"Each mutant must be rejected by NewBlockFromCbor with default config. Non-trivial = the mutant still decodes when SkipBodyHashValidation is set (only the header binding can reject it); distinct by hash of the mutant bytes",
+			"plus tampering of the commitment itself in the header (Byron tx count / merkle root / witness hash / dlg / upd proof, Shelley+ block_body_hash located by its independently computed value). " +
+			"Each mutant must be rejected by NewBlockFromCbor with default config AND under every other validation-on combination of the boolean VerifyConfig options (enumerated by reflection; options only add checks) through every decode entry point (era constructor, NewBlockFromCborWithOffsets, pipeline DecodeStage, ByronMainBlock.ValidateBodyProof): full matrix for Byron payload/header/structural tampers, rotating pairs elsewhere; originals must be accepted under all of them. " +
+			"Byron ssc tampers (payload bytes, header ssc_proof) are judged only for monotonicity and under EnableByronSscProofHashValidation. Non-trivial = the mutant still decodes when SkipBodyHashValidation is set (only the header binding can reject it); distinct by hash of the mutant bytes",
 		MinNontrivial: 300,
 		Assumptions: []string{
 			"golang.org/x/crypto/blake2b is correct",
 			"cborx item boundaries are correct (self-checked by identity re-encoding)",
+			"every boolean VerifyConfig option other than SkipBodyHashValidation leaves the header binding on (a new option that legitimately switches it off would show up as a violation and must then be added here)",
 			"Byron: the header commits to transaction bodies (merkle root), witness lists, delegation and update payload bytes only; framing bytes of the payload arrays and the ssc payload are not judged",
 		},
 		QuickTimeout: 600, ThoroughTimeout: 3 * 3600,
@@ -92,14 +102,173 @@ func committed(l *blockx.Layout) []byte {
 }
 
 type mutant struct {
-	class  string // byte | reencode | swap | drop | dup | invalid-list | aux-entry | byron-dlg | byron-upd
+	class  string // byte | reencode | swap | drop | dup | invalid-list | aux-entry | byron-dlg | byron-upd | header-proof
 	region string
 	desc   string
 	data   []byte
+	// ssc: the tamper touches only what the Byron ssc_proof covers (ssc
+	// payload, or the ssc_proof field of the header). The statement does not
+	// list it among the default commitments, so it is judged only (a) for
+	// monotonicity and (b) under EnableByronSscProofHashValidation.
+	ssc bool
+	// full: run under every validation-on configuration x every entry point;
+	// otherwise under npairs of them, rotating with the mutant index
+	full   bool
+	npairs int
 }
 
 type mon struct {
-	c *core.Ctx
+	c       *core.Ctx
+	cfgs    []cfgVariant // validation-on configurations, default first
+	entries []entry
+}
+
+// ---------------------------------------------------------------- configs
+
+type cfgVariant struct {
+	name string // "default" or "+SBHV+EBSPHV" (initials of the set boolean fields)
+	full string // full field names
+	cfg  lcommon.VerifyConfig
+	ssc  bool // EnableByronSscProofHashValidation set
+}
+
+func initials(s string) string {
+	var b strings.Builder
+	for _, r := range s {
+		if r >= 'A' && r <= 'Z' {
+			b.WriteRune(r)
+		}
+	}
+	return b.String()
+}
+
+// allConfigs enumerates every combination of the boolean fields of
+// VerifyConfig (found by reflection, so new options are picked up) and
+// returns those that leave body validation on (SkipBodyHashValidation false).
+func allConfigs() (on []cfgVariant, boolFields []string) {
+	t := reflect.TypeOf(lcommon.VerifyConfig{})
+	var idx []int
+	for i := 0; i < t.NumField(); i++ {
+		if t.Field(i).Type.Kind() == reflect.Bool && t.Field(i).IsExported() {
+			idx = append(idx, i)
+			boolFields = append(boolFields, t.Field(i).Name)
+		}
+	}
+	for mask := 0; mask < 1<<len(idx); mask++ {
+		var cfg lcommon.VerifyConfig
+		v := reflect.ValueOf(&cfg).Elem()
+		var short, long []string
+		for k, fi := range idx {
+			if mask&(1<<k) != 0 {
+				v.Field(fi).SetBool(true)
+				short = append(short, initials(t.Field(fi).Name))
+				long = append(long, t.Field(fi).Name)
+			}
+		}
+		if cfg.SkipBodyHashValidation {
+			continue
+		}
+		cv := cfgVariant{name: "default", cfg: cfg, ssc: cfg.EnableByronSscProofHashValidation}
+		if len(short) > 0 {
+			cv.name = "+" + strings.Join(short, "+")
+			cv.full = strings.Join(long, ",")
+		}
+		on = append(on, cv)
+	}
+	// fewest set options first, so that the first accepting configuration
+	// reported for a mutant is a minimal one
+	sort.SliceStable(on, func(i, j int) bool { return strings.Count(on[i].name, "+") < strings.Count(on[j].name, "+") })
+	return on, boolFields
+}
+
+// ---------------------------------------------------------------- entry points
+
+type entry struct {
+	name    string
+	cfgFree bool // the entry point takes no VerifyConfig (always default)
+	applies func(typ uint) bool
+	run     func(typ uint, x []byte, cfg lcommon.VerifyConfig) error
+}
+
+func okBlock(b any, err error) error {
+	if err != nil {
+		return err
+	}
+	if b == nil || (reflect.ValueOf(b).Kind() == reflect.Pointer && reflect.ValueOf(b).IsNil()) {
+		return fmt.Errorf("nil block without error")
+	}
+	return nil
+}
+
+func entryPoints() []entry {
+	all := func(uint) bool { return true }
+	return []entry{
+		{name: "NewBlockFromCbor", applies: all, run: func(t uint, x []byte, cfg lcommon.VerifyConfig) error {
+			b, err := ledger.NewBlockFromCbor(t, x, cfg)
+			return okBlock(b, err)
+		}},
+		{name: "era-constructor", applies: func(t uint) bool { return t >= 1 && t <= 8 }, run: func(t uint, x []byte, cfg lcommon.VerifyConfig) error {
+			switch t {
+			case corpus.TypeByronMain:
+				b, err := ledger.NewByronMainBlockFromCbor(x, cfg)
+				return okBlock(b, err)
+			case corpus.TypeShelley:
+				b, err := ledger.NewShelleyBlockFromCbor(x, cfg)
+				return okBlock(b, err)
+			case corpus.TypeAllegra:
+				b, err := ledger.NewAllegraBlockFromCbor(x, cfg)
+				return okBlock(b, err)
+			case corpus.TypeMary:
+				b, err := ledger.NewMaryBlockFromCbor(x, cfg)
+				return okBlock(b, err)
+			case corpus.TypeAlonzo:
+				b, err := ledger.NewAlonzoBlockFromCbor(x, cfg)
+				return okBlock(b, err)
+			case corpus.TypeBabbage:
+				b, err := ledger.NewBabbageBlockFromCbor(x, cfg)
+				return okBlock(b, err)
+			case corpus.TypeConway:
+				b, err := ledger.NewConwayBlockFromCbor(x, cfg)
+				return okBlock(b, err)
+			case corpus.TypeDijkstra:
+				b, err := ledger.NewDijkstraBlockFromCbor(x, cfg)
+				return okBlock(b, err)
+			}
+			return fmt.Errorf("no constructor")
+		}},
+		// EBBs are excluded here: NewBlockFromCborWithOffsets cannot decode a real EBB (known finding of C36)
+		{name: "NewBlockFromCborWithOffsets", applies: func(t uint) bool { return t >= 1 }, run: func(t uint, x []byte, cfg lcommon.VerifyConfig) error {
+			b, err := ledger.NewBlockFromCborWithOffsets(t, x, cfg)
+			if err == nil && (b == nil || b.Block == nil) {
+				return fmt.Errorf("nil block without error")
+			}
+			return err
+		}},
+		{name: "pipeline.DecodeStage", cfgFree: true, applies: all, run: func(t uint, x []byte, _ lcommon.VerifyConfig) error {
+			item := pipeline.NewBlockItem(t, x, pcommon.Tip{}, 1)
+			if err := pipeline.NewDecodeStage(false).Process(context.Background(), item); err != nil {
+				return err
+			}
+			if item.Block() == nil {
+				return fmt.Errorf("nil block without error")
+			}
+			return nil
+		}},
+		// the anchored mechanism itself: decode without validation, then ValidateBodyProof(cfg)
+		{name: "ByronMainBlock.ValidateBodyProof", applies: func(t uint) bool { return t == corpus.TypeByronMain }, run: func(t uint, x []byte, cfg lcommon.VerifyConfig) error {
+			b, err := byron.NewByronMainBlockFromCbor(x, skipCfg())
+			if err != nil {
+				return err
+			}
+			return b.ValidateBodyProof(cfg)
+		}},
+	}
+}
+
+// try runs one entry point under one configuration; ok = the block was accepted.
+func (m *mon) try(e *entry, typ uint, x []byte, cfg lcommon.VerifyConfig) (ok bool, err error, panicked bool) {
+	p, _, _ := core.Safely(func() { err = e.run(typ, x, cfg) })
+	return !p && err == nil, err, p
 }
 
 func (m *mon) decode(typ uint, x []byte, cfg ...lcommon.VerifyConfig) (ok bool, err error, panicked bool) {
@@ -111,7 +280,38 @@ func (m *mon) decode(typ uint, x []byte, cfg ...lcommon.VerifyConfig) (ok bool, 
 	return ok, err, p
 }
 
-func (m *mon) judge(b *corpus.Block, mu mutant) {
+// pairs returns the (configuration, entry point) pairs a mutant is run under,
+// besides (default, NewBlockFromCbor) which every mutant gets.
+func (m *mon) pairs(typ uint, mu *mutant, index int) [][2]int {
+	var all [][2]int
+	for ci := range m.cfgs {
+		for ei := range m.entries {
+			e := &m.entries[ei]
+			if !e.applies(typ) || (ci == 0 && ei == 0) || (e.cfgFree && ci != 0) {
+				continue
+			}
+			all = append(all, [2]int{ci, ei})
+		}
+	}
+	if mu.full || len(all) == 0 {
+		return all
+	}
+	// rotating pairs, so that over the run every pair meets every block and class
+	n := mu.npairs
+	if n < 1 {
+		n = 1
+	}
+	if n > len(all) {
+		n = len(all)
+	}
+	out := make([][2]int, 0, n)
+	for j := 0; j < n; j++ {
+		out = append(out, all[(index+j*len(all)/n)%len(all)])
+	}
+	return out
+}
+
+func (m *mon) judge(b *corpus.Block, mu mutant, index int) {
 	c := m.c
 	c.Eval()
 	c.Count("mutants_"+mu.class, 1)
@@ -130,20 +330,75 @@ func (m *mon) judge(b *corpus.Block, mu mutant) {
 	} else {
 		c.Count("malformed_"+mu.class, 1)
 	}
-	if !ok {
+	report := func(kind string, cv *cfgVariant, e *entry, what string) {
+		wit := map[string]any{"block": b.Name, "block_type": b.Type, "class": mu.class, "region": mu.region, "mutation": mu.desc,
+			"entry": e.name, "config": cv.name, "config_fields_set": cv.full}
+		if len(mu.data) <= 8192 {
+			wit["input_hex"] = core.HexFull(mu.data)
+		} else {
+			wit["input_hex_prefix"] = core.Hex(mu.data)
+			wit["reproduce"] = "apply `mutation` to corpus block `block`"
+		}
+		key := fmt.Sprintf("C34:%s:%s:%s:%s", kind, typeNames[b.Type], mu.class, mu.region)
+		if cv.name != "default" {
+			key += ":cfg=" + cv.name
+		}
+		if e.name != "NewBlockFromCbor" {
+			key += ":via=" + e.name
+		}
+		c.Violation(key, what, wit)
+	}
+	if ok && !mu.ssc {
+		c.Count("accepted_mutants", 1)
+		report("accepted", &m.cfgs[0], &m.entries[0],
+			fmt.Sprintf("NewBlockFromCbor(validation on) accepted a %s block whose %s differs from the original (%s, %s)", typeNames[b.Type], mu.region, mu.class, mu.desc))
+	} else if !ok {
 		c.Count("rejected", 1)
-		return
 	}
-	c.Count("accepted_mutants", 1)
-	wit := map[string]any{"block": b.Name, "block_type": b.Type, "class": mu.class, "region": mu.region, "mutation": mu.desc}
-	if len(mu.data) <= 8192 {
-		wit["input_hex"] = core.HexFull(mu.data)
-	} else {
-		wit["input_hex_prefix"] = core.Hex(mu.data)
-		wit["reproduce"] = "apply `mutation` to corpus block `block`"
+	if mu.ssc {
+		if ok {
+			c.Count("ssc_tamper_accepted_default_config(not judged)", 1)
+		} else {
+			c.Count("ssc_tamper_rejected_default_config", 1)
+		}
 	}
-	c.Violation(fmt.Sprintf("C34:accepted:%s:%s:%s", typeNames[b.Type], mu.class, mu.region),
-		fmt.Sprintf("NewBlockFromCbor(validation on) accepted a %s block whose %s differs from the original (%s, %s)", typeNames[b.Type], mu.region, mu.class, mu.desc), wit)
+	// every other (configuration, entry point) pair; one report per mutant
+	// (the first accepting pair, minimal configuration first)
+	reported := ok && !mu.ssc
+	for _, pr := range m.pairs(b.Type, &mu, index) {
+		cv, e := &m.cfgs[pr[0]], &m.entries[pr[1]]
+		c.Count("config_entry_runs", 1)
+		c.Count("runs_cfg_"+cv.name, 1)
+		c.Count("runs_via_"+e.name, 1)
+		okc, _, pc := m.try(e, b.Type, mu.data, cv.cfg)
+		if pc || !okc {
+			if mu.ssc && cv.ssc {
+				c.Count("ssc_tamper_rejected_full_ssc_config", 1)
+			}
+			continue
+		}
+		if reported {
+			c.Count("accepted_mutants", 1)
+			continue
+		}
+		reported = true
+		switch {
+		case !mu.ssc:
+			c.Count("accepted_mutants", 1)
+			report("accepted", cv, e, fmt.Sprintf("%s under config %s accepted a %s block whose %s differs from what the header commits to (%s, %s)",
+				e.name, cv.name, typeNames[b.Type], mu.region, mu.class, mu.desc))
+		case !ok:
+			// options only ever add checks: rejected by default => rejected under every validation-on config
+			report("non-monotonic", cv, e, fmt.Sprintf("%s rejects this %s block under the default config but accepts it under %s (%s, %s)",
+				e.name, typeNames[b.Type], cv.name, mu.region, mu.desc))
+		case !cv.ssc:
+			reported = false // accepted by default and by this config alike: not judged
+		case cv.ssc:
+			c.Count("ssc_tamper_accepted_full_ssc_config", 1)
+			report("accepted-ssc", cv, e, fmt.Sprintf("%s with EnableByronSscProofHashValidation accepted a block whose %s differs from the header's ssc_proof (%s, %s)",
+				e.name, mu.region, mu.class, mu.desc))
+		}
+	}
 }
 
 // fixBodyHash replaces, inside the header, the byte string equal to oldHash
@@ -162,7 +417,15 @@ func fixBodyHash(header *cborx.Node, oldHash, newHash []byte) bool {
 func h256(b []byte) []byte { s := blake2b.Sum256(b); return s[:] }
 
 func run(c *core.Ctx) {
-	m := &mon{c: c}
+	m := &mon{c: c, entries: entryPoints()}
+	var boolFields []string
+	m.cfgs, boolFields = allConfigs()
+	c.Note("verify_config_bool_fields", boolFields)
+	c.Note("validation_on_configs", len(m.cfgs))
+	if len(m.cfgs) == 0 || m.cfgs[0].name != "default" {
+		c.Inconclusive("VerifyConfig has no SkipBodyHashValidation field any more: the configuration matrix cannot be built")
+		return
+	}
 	blocks := corpus.MustBlocks(c.RepoDir)
 
 	// generated Dijkstra block with transactions and an independently computed body hash
@@ -201,7 +464,7 @@ func run(c *core.Ctx) {
 		mu mutant
 	}
 	var jobs []job
-	nBytes := c.N(700, 0) // sampled offsets per block in quick; 0 = every offset
+	nBytes := c.N(450, 0) // sampled offsets per block in quick; 0 = every offset
 	valuesPer := c.N(2, 6)
 	perClassReenc := c.N(3, 40)
 
@@ -218,6 +481,24 @@ func run(c *core.Ctx) {
 		}
 		c.Count("originals_accepted", 1)
 		c.Distinct("original", b.Name)
+		// ... through every entry point under every validation-on configuration
+		for ci := range m.cfgs {
+			for ei := range m.entries {
+				cv, e := &m.cfgs[ci], &m.entries[ei]
+				if !e.applies(b.Type) || (ci == 0 && ei == 0) || (e.cfgFree && ci != 0) {
+					continue
+				}
+				c.Eval()
+				oko, erro, po := m.try(e, b.Type, b.Cbor, cv.cfg)
+				if !oko {
+					c.Violation(fmt.Sprintf("C34:original-rejected:%s:cfg=%s:via=%s", b.Name, cv.name, e.name),
+						fmt.Sprintf("block %s is refused by %s under config %s (%s): %v (panic=%v)", b.Name, e.name, cv.name, cv.full, erro, po),
+						map[string]any{"block": b.Name, "block_type": b.Type, "entry": e.name, "config": cv.name, "config_fields_set": cv.full})
+				} else {
+					c.Count("originals_accepted_other_config_or_entry", 1)
+				}
+			}
+		}
 		root, err := cborx.ParseExact(b.Cbor)
 		if err != nil || !bytes.Equal(root.Encode(), b.Cbor) {
 			c.Inconclusive("cborx self-check failed on " + b.Name)
@@ -285,6 +566,107 @@ func run(c *core.Ctx) {
 				d := append([]byte(nil), b.Cbor...)
 				d[o] = byte(v)
 				jobs = append(jobs, job{b, mutant{class: "byte", region: regOf[o], desc: fmt.Sprintf("byte %d: %02x -> %02x", o, old, v), data: d}})
+			}
+		}
+
+		// (2b) the commitments in the header: body untouched, proof field changed
+		hdrMut := func(region, desc string, ssc bool, edit func(t *cborx.Node) bool) {
+			t := root.Clone()
+			if !edit(t) {
+				c.Count("header_proof_field_not_found_"+region, 1)
+				return
+			}
+			d := t.Encode()
+			if bytes.Equal(d, b.Cbor) {
+				return
+			}
+			jobs = append(jobs, job{b, mutant{class: "header-proof", region: region, desc: desc, data: d, ssc: ssc}})
+		}
+		flipIn := func(n *cborx.Node, k int) bool {
+			if n == nil || n.Kind != cborx.Bytes || n.Form == cborx.FormIndef || len(n.Data) == 0 {
+				return false
+			}
+			d := append([]byte(nil), n.Data...)
+			d[k%len(d)] ^= 0x01
+			n.Data = d
+			return true
+		}
+		switch {
+		case b.Type == corpus.TypeByronMain:
+			// header = [magic, prev, body_proof, consensus, extra]; body_proof = [[count, merkle, wit_hash], ssc_proof, dlg_hash, upd_hash]
+			proofOf := func(t *cborx.Node) *cborx.Node { return t.At(0, 2) }
+			if pr := proofOf(root); pr != nil && pr.Kind == cborx.Array && len(pr.Items) == 4 && pr.Items[0].Kind == cborx.Array && len(pr.Items[0].Items) == 3 {
+				hdrMut("hdr.txcount", "tx_proof count + 1", false, func(t *cborx.Node) bool {
+					n := proofOf(t).Items[0].Items[0]
+					if n.Kind != cborx.Uint {
+						return false
+					}
+					n.Arg++
+					return true
+				})
+				for _, k := range []int{0, 13, 31} {
+					k := k
+					hdrMut("hdr.txmerkle", fmt.Sprintf("tx_proof merkle root byte %d ^= 1", k), false, func(t *cborx.Node) bool { return flipIn(proofOf(t).Items[0].Items[1], k) })
+					hdrMut("hdr.txwit", fmt.Sprintf("tx_proof witnesses hash byte %d ^= 1", k), false, func(t *cborx.Node) bool { return flipIn(proofOf(t).Items[0].Items[2], k) })
+					hdrMut("hdr.dlg", fmt.Sprintf("dlg_proof byte %d ^= 1", k), false, func(t *cborx.Node) bool { return flipIn(proofOf(t).Items[2], k) })
+					hdrMut("hdr.upd", fmt.Sprintf("upd_proof byte %d ^= 1", k), false, func(t *cborx.Node) bool { return flipIn(proofOf(t).Items[3], k) })
+				}
+				// every byte string inside ssc_proof
+				sp := proofOf(root).Items[1]
+				for ord, n := range sp.Nodes() {
+					if n.Kind != cborx.Bytes || len(n.StringData()) == 0 {
+						continue
+					}
+					ord := ord
+					hdrMut("hdr.ssc", fmt.Sprintf("ssc_proof item #%d byte 5 ^= 1", ord), true, func(t *cborx.Node) bool { return flipIn(proofOf(t).Items[1].Nodes()[ord], 5) })
+				}
+			} else {
+				c.Count("byron_body_proof_shape_unexpected", 1)
+			}
+			// ssc payload bytes (not among the default commitments of the statement)
+			sscN := lay.ByronSsc
+			nSsc := c.N(150, sscN.End-sscN.Start)
+			seenS := map[int]bool{}
+			for len(seenS) < nSsc && len(seenS) < sscN.End-sscN.Start {
+				o := sscN.Start + r.Intn(sscN.End-sscN.Start)
+				if seenS[o] {
+					continue
+				}
+				seenS[o] = true
+				old := b.Cbor[o]
+				for _, v := range []byte{old ^ 1, byte(r.Intn(256))} {
+					if v == old {
+						continue
+					}
+					d := append([]byte(nil), b.Cbor...)
+					d[o] = v
+					jobs = append(jobs, job{b, mutant{class: "byte", region: "byron.ssc", desc: fmt.Sprintf("byte %d: %02x -> %02x", o, old, v), data: d, ssc: true}})
+				}
+			}
+		default:
+			// the header's body hash, located by its independently computed value
+			var want []byte
+			if lay.Split {
+				var cat []byte
+				for _, sg := range lay.Segments {
+					cat = append(cat, h256(sg.Slice(b.Cbor))...)
+				}
+				want = h256(cat)
+			} else if lay.DjBody != nil {
+				want = h256(lay.DjBody.Slice(b.Cbor))
+			}
+			for _, k := range []int{0, 13, 31} {
+				k := k
+				hdrMut("hdr.bodyhash", fmt.Sprintf("header block_body_hash byte %d ^= 1", k), false, func(t *cborx.Node) bool {
+					found := 0
+					t.Items[0].Walk(func(x *cborx.Node) {
+						if found == 0 && x.Kind == cborx.Bytes && x.Form != cborx.FormIndef && bytes.Equal(x.Data, want) {
+							found++
+							flipIn(x, k)
+						}
+					})
+					return found == 1
+				})
 			}
 		}
 
@@ -528,12 +910,28 @@ func run(c *core.Ctx) {
 		}
 	}
 
+	for i := range jobs {
+		mu := &jobs[i].mu
+		byronMain := jobs[i].b.Type == corpus.TypeByronMain
+		switch {
+		case byronMain && (mu.class != "byte" || (mu.region != "byron.txbody" && mu.region != "byron.witness")) || c.Thorough() && byronMain:
+			// Byron body-proof checking depends on the options: full matrix for
+			// every payload / header-proof / structural tamper
+			mu.full = true
+		case byronMain:
+			mu.npairs = 8
+		case mu.class != "byte":
+			mu.npairs = c.N(3, 16)
+		default:
+			mu.npairs = 1
+		}
+	}
 	c.Parallel("mutant", len(jobs), 0, func(i int, _ *core.Rand) {
 		if i%997 == 0 {
 			j := jobs[i]
 			c.Sample(map[string]any{"block": j.b.Name, "class": j.mu.class, "region": j.mu.region, "mutation": j.mu.desc, "len": len(j.mu.data)})
 		}
-		m.judge(jobs[i].b, jobs[i].mu)
+		m.judge(jobs[i].b, jobs[i].mu, i)
 	})
 	c.Note("blocks", len(blocks))
 	if c.Counter("originals_accepted") == 0 {
